@@ -107,7 +107,8 @@ int fstree_from_file_stream(fstree_t *fs, sqfs_istream_t *file,
 int fstree_sort_files(fstree_t *fs, sqfs_istream_t *sortfile);
 
 int scan_directory(fstree_t *fs, sqfs_dir_iterator_t *dir,
-		   size_t prefix_len, const char *file_prefix);
+		   size_t prefix_len, const char *file_prefix,
+		   bool detect_hardlinks);
 
 int glob_files(fstree_t *fs, const char *filename, size_t line_num,
 	       const sqfs_dir_entry_t *ent,
